@@ -19,7 +19,7 @@ from lib.vlib import Infra
 
 SPEC = os.path.join(vlib.SPECS, "codec")
 PKGS = [("src/coin", "coin"), ("src/daemon", "daemon"), ("src/visor", "visor"), ("src/visor/blockdb", "blockdb"), ("src/visor/historydb", "historydb")]
-COUNT = {"quick": 12, "thorough": 700}      # values per codec (each followed by two byte strings)
+COUNT = {"quick": 12, "thorough": 250}      # values per codec (each followed by two byte strings)
 
 
 def run(res, prop, tier, seed, work, replay=None):
@@ -43,7 +43,7 @@ def run(res, prop, tier, seed, work, replay=None):
             s = open(os.path.join(out, "schemas-%s.ndjson" % name)).read()
             sf.write(s)
             types += [json.loads(l)["type"] for l in s.splitlines()]
-    st, mism = vlib.validate_records(SPEC, "CodecRecords", "CodecRecords.cfg", work, recs, chunk=6000, with_reason=True, extra_files={"schemas.ndjson": schemas},
+    st, mism = vlib.validate_records(SPEC, "CodecRecords", "CodecRecords.cfg", work, recs, chunk=2500, with_reason=True, extra_files={"schemas.ndjson": schemas},
                                      timeout=3000)
     seen = collections.Counter()
     for i, (r, parts) in enumerate(mism):
